@@ -158,7 +158,8 @@ func (c10) Gen(seed uint64, tier string) *Scenario {
 			m.Stmts = append(m.Stmts, "COMMIT;")
 		}
 	}
-	sc.Procs = []ProcSpec{{Program: strings.Join(m.Stmts, "\n"), CPU: r.Pick(1, 1, 2), WaitTimeoutS: 10.0000001, RetryDelayNs: 10001009, Quiet: true, Format: "CSV"}}
+	sc.Procs = []ProcSpec{{Program: strings.Join(m.Stmts, "\n"), CPU: r.Pick(1, 1, 2), WaitTimeoutS: 10.0000001, RetryDelayNs: 10001009, Quiet: true, Format: "CSV", Flags: swarmFlags(Sub(seed, "c10-flags"), 0.35)}}
+	avoidBareCR(sc.Procs[0].Flags, sc.Files, sc.Procs[0].Program)
 	sc.Meta = map[string]string{"workload": mustJSON(m)}
 	sc.Knobs = Knobs{RowStride: 64, Pool: "lifo"}
 	sc.Torn = &TornSpec{Proc: 0, All: true, Frac: r.Float()}
@@ -385,7 +386,7 @@ func (c10) Eval(t *testing.T, c *Case, dec func(int) *Decider) *Outcome {
 			st = append(st, fmt.Sprintf("SELECT COUNT(*) FROM `%s`;", tb.Name), fmt.Sprintf("UPDATE `%s` SET n = 42;", tb.Name))
 		}
 		st = append(st, "COMMIT;")
-		usc.Procs = []ProcSpec{{Program: strings.Join(st, "\n"), CPU: 1, WaitTimeoutS: 0.5, RetryDelayNs: 10001009, Quiet: true, Format: "CSV"}}
+		usc.Procs = []ProcSpec{{Program: strings.Join(st, "\n"), CPU: 1, WaitTimeoutS: 0.5, RetryDelayNs: 10001009, Quiet: true, Format: "CSV", Flags: sc.Procs[0].Flags}}
 		ures, _ := Execute(t, usc, dec(1))
 		o.Runs++
 		if ures.Procs[0].ExitCode != 0 || ures.Hang != "" {
@@ -527,7 +528,7 @@ func realCrash(bin string, sc *Scenario, point string, nth int) (DirState, error
 		return nil, err
 	}
 	plan, _ := json.Marshal(map[string]string{"crash": fmt.Sprintf("%s#%d", point, nth)})
-	cmd := exec.Command(bin, "--repository", dir, "--quiet", "--cpu", "1", "--format", "CSV", sc.Procs[0].Program)
+	cmd := exec.Command(bin, append(append([]string{"--repository", dir, "--quiet", "--cpu", "1", "--format", "CSV"}, cliFlagArgs(sc.Procs[0].Flags)...), sc.Procs[0].Program)...)
 	cmd.Env = append(os.Environ(), "VERIF_PLAN="+string(plan))
 	cmd.Dir = filepath.Join(BaseDir, "cwd")
 	done := make(chan error, 1)
@@ -593,7 +594,8 @@ func straceCrash(bin string, sc *Scenario, class string, n int, renameErr string
 		args = []string{"-f", "-o", "/dev/null", "-e", "trace=" + class + "," + straceClasses[0], "-e", fmt.Sprintf("inject=%s:signal=SIGKILL:when=%d", class, n),
 			"-e", fmt.Sprintf("inject=%s:error=%s:when=1", straceClasses[0], renameErr)}
 	}
-	args = append(args, bin, "--repository", dir, "--quiet", "--cpu", "1", "--format", "CSV", sc.Procs[0].Program)
+	args = append(args, bin, "--repository", dir, "--quiet", "--cpu", "1", "--format", "CSV")
+	args = append(append(args, cliFlagArgs(sc.Procs[0].Flags)...), sc.Procs[0].Program)
 	cmd := exec.Command("strace", args...)
 	cmd.Dir = filepath.Join(BaseDir, "cwd")
 	cmd.Env = append(os.Environ(), "GOMAXPROCS=1")
